@@ -286,10 +286,11 @@ def vmdk_header(capacity_sectors=2048, version=1, desc_sec=1, desc_num=20,
     h = bytearray(512)
     if gd_offset is None:
         gd_offset = (desc_sec + desc_num + 1)
+    M = (1 << 64) - 1
     struct.pack_into('<4sIIQQQQIQQQ', h, 0, sig, version & 0xffffffff, flags,
-                     capacity_sectors, 128, desc_sec, desc_num, 512,
-                     desc_sec + desc_num, gd_offset,
-                     desc_sec + desc_num + 64)
+                     capacity_sectors & M, 128, desc_sec & M, desc_num & M, 512,
+                     (desc_sec + desc_num) & M, gd_offset & M,
+                     (desc_sec + desc_num + 64) & M)
     h[72] = 0
     h[73:77] = b'\n \r\n'
     struct.pack_into('<H', h, 77, 1 if compressed else 0)
